@@ -304,7 +304,28 @@ def rule_continue(ck):
     ck.ob("mpt.continue", "continue_execution/arms-cover-types", len(arms) + 1 >= len(names), f"{len(arms)} explicit arms for {len(names)} variants", f.loc(i))
 
 
+def rule_replace_order(ck):
+    prog = ck.prog
+    ck.rule("mpt.replace_order", "BreakpointRegistry::add_and_enable: a breakpoint already registered at the address is un-patched before the new one is patched (its saved byte must be the original instruction byte, not 0xCC), the new object is patched before it is inserted, and the returned view is the inserted object")
+    f = ck.anchor(REG + "::add_and_enable")
+    dis = [c for c in f.calls() if c.name == f"{BP}::disable"]
+    en = [c for c in f.calls() if c.name == f"{BP}::enable"]
+    ins = [c for c in f.calls() if re.search(r"HashMap::<K, V, S(, A)?>::insert$", c.name)]
+    ok = len(dis) == 1 and len(en) == 1 and len(ins) == 1
+    ck.ob("mpt.replace_order", "add_and_enable/shape", ok, f"disable={len(dis)} enable={len(en)} insert={len(ins)}", f.loc())
+    if ok:
+        ck.ob("mpt.replace_order", "add_and_enable/old-unpatched-before-new-patched", en[0].bb in f.after(dis[0].bb) and dis[0].bb not in f.after(en[0].bb), "the new breakpoint reads the word while the old INT3 is still in place: it would save 0xCC as the original byte", f.loc(en[0].bb), what="add_and_enable patches the new breakpoint before un-patching the one it replaces")
+        ck.ob("mpt.replace_order", "add_and_enable/patched-before-insert", f.dominates(en[0].bb, ins[0].bb), "", f.loc(ins[0].bb))
+        # the object disabled is the one found at the same address; the one enabled/inserted is the argument
+        d = expr_str(expr_of(f, dis[0].args[0]), 8)
+        e = expr_str(expr_of(f, en[0].args[0]), 6)
+        ck.ob("mpt.replace_order", "add_and_enable/disables-registered-enables-argument", "get(" in d and ".breakpoints" in d and "arg2" in e, f"disable({d[:60]}) enable({e})", f.loc())
+        k = expr_str(expr_of(f, ins[0].args[1]), 6)
+        ck.ob("mpt.replace_order", "add_and_enable/keyed-by-own-address", ".addr" in k and "arg2" in k, f"insert key = {k}", f.loc(ins[0].bb))
+
+
 def run(ck):
+    rule_replace_order(ck)
     rule_bits(ck)
     rule_rewind(ck)
     rule_stepoff(ck)
